@@ -167,8 +167,11 @@ fn rename(ctx: &LspContext, params: RenameParams) -> MosResult<Option<WorkspaceE
                     // But not the paths that reach it by another name (`.import name as alias`): the alias stays what it is
                     for (dl, (steps, _)) in steps.iter() {
                         if let Some(QueryTraversalStep::Symbol(nx)) = steps.last() {
-                            if codegen.symbols().children(dl.parent_scope).get(&old_name)
-                                != Some(nx)
+                            // (nor what the path leads to when it is not the symbol at all: the invocation of a macro
+                            // skips symbols of the same name that are not macros)
+                            if *nx != def_symbol_nx
+                                || codegen.symbols().children(dl.parent_scope).get(&old_name)
+                                    != Some(nx)
                             {
                                 continue;
                             }
@@ -184,9 +187,12 @@ fn rename(ctx: &LspContext, params: RenameParams) -> MosResult<Option<WorkspaceE
                     let new_paths = steps
                         .into_iter()
                         .filter_map(|(dl, (query_traversal_steps, old_path))| {
-                            if query_traversal_steps.is_empty() {
+                            if query_traversal_steps.last()
+                                != Some(&QueryTraversalStep::Symbol(def_symbol_nx))
+                            {
                                 // The usage does not reach the symbol by a path from where it stands (e.g. the original name
-                                // in `.import name as alias`): it is simply the name of the symbol
+                                // in `.import name as alias`, or a macro invocation next to a label of the same name):
+                                // it is simply the name of the symbol
                                 return None;
                             }
                             let include_super = old_path.contains_super();
